@@ -37,6 +37,19 @@ def _feasible(extra):
     s.add(extra)
     r = s.check()
     if r == z3.unknown:
+        # the default strategy can give up on non-linear real constraints; nlsat is complete for them
+        for mk in (lambda: z3.SolverFor("QF_NRA"), lambda: z3.Tactic("qfnra-nlsat").solver()):
+            try:
+                s2 = mk()
+                s2.set("timeout", 60000)
+                s2.add(*CTX.pc)
+                s2.add(extra)
+                r = s2.check()
+            except z3.Z3Exception:
+                continue
+            if r != z3.unknown:
+                break
+    if r == z3.unknown:
         raise RuntimeError("pathfork: solver returned unknown on a feasibility query")
     return r == z3.sat
 
